@@ -61,7 +61,8 @@ class Env:
         out = {}
         for name, (imp, cls) in self.imps.items():
             imp.delete_all_graphs()
-            out[name] = {g: cls(graph_id=g, importer=imp) for g in pgmodel.GIDS}
+            # every handle comes with an importer object of its own (callers create importers freely): they all denote the one store
+            out[name] = {g: cls(graph_id=g, importer=type(imp)()) for g in pgmodel.GIDS}
         return out
 
 
